@@ -552,7 +552,17 @@ class InterpCore:
         raise Unsupported("unary op")
 
     def ev_BinOp(self, e, fr):
-        return ops.binop(self.ctx, e.op, self.ev(e.left, fr), self.ev(e.right, fr))
+        a, b = self.ev(e.left, fr), self.ev(e.right, fr)
+        if fr.spec:
+            # inside a clause arithmetic on an Optional is arithmetic on its value (the clause
+            # guards it with `is not None`; an unguarded use is just an unconstrained number)
+            from .sym import SymOpt as _SO
+
+            if isinstance(a, _SO):
+                a = a.value
+            if isinstance(b, _SO):
+                b = b.value
+        return ops.binop(self.ctx, e.op, a, b)
 
     def ev_BoolOp(self, e, fr):
         if fr.spec:
